@@ -13,7 +13,8 @@ ORACLES = ("wcag",)
 RULE = ("luminance: all 16,777,216 colours (both tiers) against a 50-digit-decimal reference table; ratio: all 65,536 grey x grey pairs, "
         "random + near-threshold pairs, every colour vs black and white (thorough: all 2^24, quick: 2^20 stratified); symmetry, "
         "range, ==1 on equal, 21 only for black/white; labels: each threshold float with 5 adjacent representable floats each way x "
-        "large flag + random ratios; get_wcag_level / is_readable / bulk status on pairs; luminance+ratio contracts also fire on every "
+        "large flag + random ratios; get_wcag_level / is_readable / bulk status on pairs, is_readable also with the pair written in every accepted spelling (translucent text "
+        "whose displayed colour is the pair's); luminance+ratio contracts also fire on every "
         "candidate the optimiser evaluates in a side workload. Non-trivial = every distinct colour / pair / float judged (none is skipped).")
 ASSUMPTIONS = ["oracle table computed with decimal at 50 digits; WCAG 0.03928 vs sRGB 0.04045 breakpoints select the same branch for all 8-bit values (asserted in self-test)"]
 MUST_OBSERVE = {"any": ["lum_checked", "ratio_checked", "label_checked", "pair_label_checked", "bulk_status_after_fix_checked"]}
